@@ -318,7 +318,7 @@ def r5(run, ctx):
     run.check('R5', all(('%s.sort(key=name)' % x) in t3 for x in ('watchers', 'plugins', 'sockets')),
               'get_config returns name-sorted lists', gc, gc.node)
     gw = ctx.fn(A + 'get_watcher_config')
-    run.check('R5', astq.has_pattern(gw.node, "$i['name'] == name") and
+    run.check('R5', (astq.has_pattern(gw.node, "$i['name'] == name") or astq.has_pattern(gw.node, "name == $i['name']")) and
               astq.has_pattern(gw.node, 'return $i.copy()'),
               'the new side is a copy of the section with that name', gw, gw.node)
 
